@@ -17,8 +17,8 @@ class Prop(SeqProp):
     pid = "C08"
     model = "dll"
     anchors = ["windpyutils/structures/lists.py"]
-    quick_cases = 1600
-    thorough_cases = 6000
+    quick_cases = 4000
+    thorough_cases = 40000
     rule = ("random operation sequences (append/prepend/extend/pre_extend/remove/pop_back/pop_front/move_to_front/"
             "move_to_back/move_after/rotate) on member nodes chosen by identity, payload classes {distinct, all equal, "
             "__eq__ raises, falsy objects}, constructor with data and one-shot iterables for the extends, iterables that raise after k items or pop the list's own front while being consumed, payload returned by pops; after every op forward walk, backward walk, len, head, tail and every (prev,next) pair are "
